@@ -310,6 +310,9 @@ func runC03(seed int64, n int, dir string, tier string) *Report {
 				}
 			}
 		}
+		if g.Chance(0.3) {
+			g.RenameSome(d.NodeList, append(append([]string{}, gen.KeptRefLike...), gen.KeptProtobomRefLike...), 1+g.Int(3))
+		}
 		docs = append(docs, src{fmt.Sprintf("generated-%d", i), d})
 	}
 	seeds := seedDocuments(g, tier)
@@ -394,8 +397,8 @@ func runC03(seed int64, n int, dir string, tier string) *Report {
 			}
 			for _, nd := range d.NodeList.Nodes {
 				id := nd.Id
-				if strings.HasPrefix(id, "protobom-") && isCDX(f) {
-					continue // regenerated on reading
+				if isCDX(f) && strings.HasPrefix(id, "protobom-") && strings.Contains(strings.SplitN(id, "--", 2)[0], "-auto") {
+					continue // the reader's own generated identifiers are written without bom-ref and regenerated on reading
 				}
 				if !isCDX(f) {
 					id = strings.TrimPrefix(id, "SPDXRef-")
